@@ -129,7 +129,7 @@ Proof. unfold first_cell. cbn [c_levels]. rewrite map_length. apply length_seqn.
 Lemma next_cell_levels_len (inp : input) (v : nat) (p : cell) (x : nat) :
   length (c_levels (next_cell inp v p x)) = in_nres inp.
 Proof.
-  unfold next_cell. destruct (temporal_values inp (c_end p) (c_stop p) x) as [[[tr ar] st] en].
+  unfold next_cell. destruct (temporal_values inp v (c_end p) (c_stop p) x) as [[[tr ar] st] en].
   cbn [c_levels]. rewrite map_length. apply length_seqn.
 Qed.
 
@@ -226,7 +226,7 @@ Qed.
 (* a vehicle whose start level exceeds its capacity: no start solution *)
 Definition ex16_inp : input :=
   mkInput [] []
-          [mkIVehicle (Some [1%Z]) [2%Z] 0%Z None None None None None [] 0%Z true true 0%Z 0%Z]
+          [mkIVehicle (Some [1%Z]) [2%Z] 0%Z None None None None None [] 0%Z true true 0%Z 0%Z 1%Z 1%Z]
           [] [[0%Z; 0%Z]; [0%Z; 0%Z]] [[0%Z; 0%Z]; [0%Z; 0%Z]] 1 ex_opts [].
 
 Example ex16_no_start_solution :
